@@ -294,3 +294,6 @@ Proof.
   assert (D : mdet B1 <> 0) by (generalize (upper_posdiag_det _ P1); lra).
   rewrite <- (mmul_I_r U1), <- (mmul_I_r U2), <- (minv_r B1 D), <- !mmul_assoc, H. reflexivity.
 Qed.
+
+Lemma vnorm2_nonneg v : 0 <= vnorm2 v.
+Proof. destruct v as [x y z]; munfold. nra. Qed.
